@@ -444,6 +444,35 @@ func Mutants(base *Schema) []Mutant {
 				m := base.Clone()
 				m.Defs[di].Fields[foIdx].Args = append(m.Defs[di].Fields[foIdx].Args, &Arg{Name: "zq7", Type: NN(N("Int"))})
 				add(m, "R7", "zq7", "extra-required-argument", "extra required argument", both)
+				// a SECOND interface that declares a field of the same name with a demand the object does not meet (another
+				// type, one more argument), listed after and before the interface the object does satisfy; through the object's
+				// own implements list and through "extend type T implements Zq7I"
+				var other *T
+				if fo.Type.K == world.TList {
+					other = cloneT(fo.Type.Of)
+				} else {
+					other = L(cloneT(fo.Type))
+				}
+				for vi, f2 := range []*Field{
+					{Name: fi.Name, Type: other, Args: fo.Args},
+					{Name: fi.Name, Type: cloneT(fi.Type), Args: append(append([]*Arg{}, fo.Args...), &Arg{Name: "zq7", Type: N("Int")})},
+				} {
+					for _, how := range []string{"after", "before", "extend"} {
+						m := base.Clone()
+						m.Defs = append(m.Defs, &Def{Kind: KInterface, Name: "Zq7I", Fields: []*Field{f2}})
+						routes := both
+						switch how {
+						case "after":
+							m.Defs[di].Implements = append(m.Defs[di].Implements, "Zq7I")
+						case "before":
+							m.Defs[di].Implements = append([]string{"Zq7I"}, m.Defs[di].Implements...)
+						default:
+							m.Defs = append(m.Defs, &Def{Kind: KObject, Name: d.Name, Extend: true, Implements: []string{"Zq7I"}})
+							routes = "sdl"
+						}
+						add(m, "R7", fi.Name, fmt.Sprintf("second-interface-same-field:%d:%s", vi, how), fmt.Sprintf("%s also implements Zq7I { %s } (%s)", d.Name, fi.Name, how), routes)
+					}
+				}
 			}
 		}
 	}
